@@ -196,6 +196,93 @@ theorem validName_aswas_witness :
   obtain ⟨rfl, rfl⟩ := h
   exact absurd (hall 0 (by simp)) (by decide)
 
+/-! ### the regex and the hand-written validators, compared -/
+
+theorem hand_constants : Gen.handNameMaxSize = 255 ∧ Gen.handUnitMaxSize = 63 ∧ Gen.handNameExtraChars = [45, 95, 46, 47] ∧
+    Gen.handNameChecksEmpty = true ∧ Gen.handUnitRejectsNul = true := ⟨rfl, rfl, rfl, rfl, rfl⟩
+
+theorem hand_classes : ∀ c : UInt8, (isAlphaC c = true ↔ IsLetter c) ∧
+    ((isAlnumC c || [45, 95, 46, 47].contains c) = true ↔ IsNameChar c) ∧
+    ((!((true && c == 0) || decide (c.toNat > 127))) = true ↔ (1 ≤ c ∧ c ≤ 127)) :=
+  forall_byte _ (by decide +kernel)
+
+/-- the hand-written `ValidateName` accepts exactly the same grammar and never reads outside the view -/
+theorem validNameHand_iff (s : Bytes) : validNameHand s ≠ none ∧ (validNameHand s = some true ↔ NameSyntax s) := by
+  unfold validNameHand validNameHandWith NameSyntax
+  rw [hand_constants.1, hand_constants.2.2.1, hand_constants.2.2.2.1]
+  cases s with
+  | nil =>
+    simp only [List.isEmpty_nil, Bool.and_self, Bool.true_or, if_true]
+    refine ⟨by simp, ?_⟩
+    constructor
+    · intro h; simp at h
+    · rintro ⟨c, rest, h, _⟩; simp at h
+  | cons c rest =>
+    simp only [List.isEmpty_cons, Bool.and_false, Bool.false_or, List.length_cons, decide_eq_true_eq]
+    by_cases hlen : rest.length + 1 > 255
+    · simp only [hlen, if_true]
+      refine ⟨by simp, ?_⟩
+      constructor
+      · intro h; simp at h
+      · rintro ⟨c', rest', h, _, hl, _⟩
+        simp only [List.cons.injEq] at h
+        obtain ⟨rfl, rfl⟩ := h
+        omega
+    · simp only [hlen, if_false]
+      refine ⟨by simp, ?_⟩
+      simp only [Option.some.injEq, Bool.and_eq_true, List.all_eq_true]
+      constructor
+      · rintro ⟨h1, h2⟩
+        exact ⟨c, rest, rfl, (hand_classes c).1.1 h1, by omega, fun x hx => (hand_classes x).2.1.1 (h2 x hx)⟩
+      · rintro ⟨c', rest', h, h1, _, h2⟩
+        simp only [List.cons.injEq] at h
+        obtain ⟨rfl, rfl⟩ := h
+        exact ⟨(hand_classes c).1.2 h1, fun x hx => (hand_classes x).2.1.2 (h2 x hx)⟩
+
+theorem validUnitHand_iff (u : Bytes) : validUnitHand u = true ↔ UnitSyntax u := by
+  unfold validUnitHand validUnitHandWith UnitSyntax
+  rw [hand_constants.2.1, hand_constants.2.2.2.2]
+  by_cases hlen : u.length > 63
+  · simp only [hlen, if_true]
+    constructor
+    · intro h; simp at h
+    · rintro ⟨hl, _⟩; omega
+  · simp only [hlen, if_false, List.all_eq_true]
+    constructor
+    · intro h; exact ⟨by omega, fun c hc => (hand_classes c).2.2.1 (h c hc)⟩
+    · rintro ⟨_, h⟩; exact fun c hc => (hand_classes c).2.2.2 (h c hc)
+
+/-- **the regex and the hand-written validators agree** on every byte string (after D12 and D62) -/
+theorem validators_agree (s : Bytes) : validNameHand s = some (validName s) ∧ validUnitHand s = validUnit s := by
+  constructor
+  · obtain ⟨hne, hiff⟩ := validNameHand_iff s
+    cases hh : validNameHand s with
+    | none => exact absurd hh hne
+    | some b =>
+      cases b with
+      | true => rw [(validName_iff s).2 (hiff.1 hh)]
+      | false =>
+        have : validName s = false := by
+          cases hv : validName s with
+          | false => rfl
+          | true => rw [hiff.2 ((validName_iff s).1 hv)] at hh; simp at hh
+        rw [this]
+  · cases hv : validUnit s with
+    | true => exact (validUnitHand_iff s).2 ((validUnit_iff s).1 hv)
+    | false =>
+      cases hh : validUnitHand s with
+      | false => rfl
+      | true => rw [(validUnit_iff s).2 ((validUnitHand_iff s).1 hh)] at hv; simp at hv
+
+/-- before D62: the hand-written `ValidateName` read `name[0]` of an empty name, and the hand-written `ValidateUnit`
+    accepted `a\0`, which the regex variant rejects -/
+theorem hand_aswas_witness : validNameHandWith false [] = none ∧ validUnitHandWith false [97, 0] = true ∧
+    validUnit [97, 0] = false := by
+  refine ⟨by decide, by decide, ?_⟩
+  cases hv : validUnit [97, 0] with
+  | false => rfl
+  | true => exact absurd ((validUnit_iff _).1 hv).2 (by intro h; exact absurd (h 0 (by simp)) (by decide))
+
 /-- **for any other name or unit the meter returns an inert instrument…** -/
 theorem invalid_gives_inert (name unit : Bytes) (h : ¬ NameSyntax name ∨ ¬ UnitSyntax unit) :
     validInstrument name unit = false := by
